@@ -125,9 +125,9 @@ Print Assumptions C10_F28_sections_not_sorted_witness.
 
 (* the prefix buffer length of the model is QS_BUF_LEN of src/pe64/scanner.rs, regenerated on every run *)
 From PV.gen Require Consts.
-From PV.Proofs Require ConstsAgree.
+From PV.Proofs Require ConstsScanner.
 Theorem C10_constants_match_source : N.of_nat Scanner.QS_BUF_LEN = Consts.K_QS_BUF_LEN.
-Proof. exact ConstsAgree.scanner_consts. Qed.
+Proof. exact ConstsScanner.scanner_consts. Qed.
 Print Assumptions C10_constants_match_source.
 
 Example C10_nonvacuous :
